@@ -646,6 +646,11 @@ def norm_enc(e):
 
 def decode_model(it, b, enc):
     enc = norm_enc(enc)
+    if enc == "ascii":
+        # mirror of str.encode('ascii'): identity on code points 0..127, anything else fails
+        if it.ctx.branch(z3.Not(z3.InRe(b.z, z3.Star(z3.Range(chr(0), chr(127))))), "decode-fails"):
+            it.raise_("UnicodeDecodeError")
+        return VStr(b.z, "str")
     ok = uf(f"decodable_{enc}", StringS, BoolS)(b.z)
     if it.ctx.branch(z3.Not(ok), "decode-fails"):
         it.raise_("UnicodeDecodeError")
